@@ -77,4 +77,29 @@ MUTANTS = [
          old="        self.format_version == FORMAT_VERSION\n            && self.compiler_abi == COMPILER_ABI\n            && self.validate_hash()", new="        self.format_version == FORMAT_VERSION\n            && self.validate_hash()"),
     dict(name="art-loader-skips-hash-check", prop="C15", units=["u_art"], file="crates/compiler/src/pipeline/separate.rs", expect=1,
          old="        if !unit.validate_hash() {", new="        if false && !unit.validate_hash() {"),
+    # ---- U-MUNIFY
+    dict(name="munify-drop-string-arm", prop="C07", units=["u_munify"], file="crates/compiler/src/mono.rs", expect=1,
+         old="        | (Ty::TFloat64, Ty::TFloat64)\n        | (Ty::TString, Ty::TString) => Ok(()),", new="        | (Ty::TFloat64, Ty::TFloat64) => Ok(()),"),
+    dict(name="munify-rebind-overwrites-undecided", prop="C07", units=["u_munify"], file="crates/compiler/src/mono.rs", expect=2,  # the edit sits on a site-rewrite anchor
+        
+         old="            if let Some(prev) = subst.get(name) {\n                if prev != a {", new="            if let Some(prev) = subst.get(name) {\n                subst.insert(name.clone(), a.clone());\n                if false {"),
+    dict(name="munify-drop-vec-arm", prop="C07", units=["u_munify"], file="crates/compiler/src/mono.rs", expect=1,
+         old="        (Ty::TVec { elem: le }, Ty::TVec { elem: re })\n        | (Ty::TRef { elem: le }, Ty::TRef { elem: re }) => unify(le, re, subst),", new="        (Ty::TRef { elem: le }, Ty::TRef { elem: re }) => unify(le, re, subst),"),
+    # ---- U-DCEFX / U-CEFFECT / U-BP / U-KIND
+    dict(name="dce-call-in-cast-pure", prop="C09", units=["u_dcefx"], file="crates/compiler/src/go/dce.rs", expect=1,
+         old="        ast::Expr::Cast { expr, .. } => expr_has_side_effects(expr),", new="        ast::Expr::Cast { .. } => false,"),
+    dict(name="dce-div-pure-again", prop="C09", units=["u_dcefx"], file="crates/compiler/src/go/dce.rs", expect=1,
+         old="            op: ast::GoBinaryOp::Div,\n            ..\n        } => true,", new="            op: ast::GoBinaryOp::Div,\n            ..\n        } => false,"),
+    dict(name="dce-go-stmt-pure", prop="C09", units=["u_dcefx"], file="crates/compiler/src/go/dce.rs", expect=1,
+         old="        ast::Stmt::Go { call: _ } => true,", new="        ast::Stmt::Go { call: _ } => false,"),
+    dict(name="ceffect-drop-go", prop="C09", units=["u_ceffect"], file="crates/compiler/src/go/compile.rs", expect=1,
+         old="            vec![compile_go(goenv, closure)]", new="            { let _ = closure; Vec::new() }"),
+    dict(name="bp-eq-binds-like-compare", prop="C11", units=["u_bp"], file="crates/parser/src/expr.rs", expect=1,
+         old="        T![==] | T![!=] => Some((9, 10)),", new="        T![==] | T![!=] => Some((11, 12)),"),
+    dict(name="bp-plus-right-assoc", prop="C11", units=["u_bp"], file="crates/parser/src/expr.rs", expect=1,
+         old="        T![+] | T![-] => Some((13, 14)),", new="        T![+] | T![-] => Some((14, 13)),"),
+    dict(name="bp-renumber-harmless", prop="C11", units=["u_bp"], file="crates/parser/src/expr.rs", expect=0,
+         old="        T![||] => Some((1, 2)),", new="        T![||] => Some((0, 2)),"),
+    dict(name="kind-swap-syntax-kinds", prop="C12", units=["u_kind"], file="crates/parser/src/syntax.rs", expect=1,
+         old="    Whitespace,\n    Comment,", new="    Comment,\n    Whitespace,"),
 ]
